@@ -286,6 +286,7 @@ Fixpoint sympyish (e : expr) : expr :=
   match e with
   | ESym "PI" => EOp (OFun "<const>pi") []
   | EOp (OFun "exp") [ENum q] => if Qeq_bool q 1 then EOp (OFun "<const>E") [] else e
+  | EOp (OFun "abs") args => EOp (OFun "Abs") (map sympyish args)     (* Python's abs() of a sympy object is the class Abs *)
   | EOp o args => EOp o (map sympyish args)
   | EBig k i b lo hi => EBig k i (sympyish b) (sympyish lo) (sympyish hi)
   | _ => e
